@@ -117,6 +117,8 @@ pub fn run_history(tr: &mut Trace, c: &Conc, r: &mut Rng, t: i32, tx: i32, hist:
         File(Writer<std::io::BufWriter<std::fs::File>>),
     }
     let mut w = if by_path {
+        crate::cmd_codec::prepopulate(&path);
+        let _ = std::fs::write(path.with_extension("dbf"), vec![7u8; 30_000]);
         match Writer::from_path(&path, table_builder()) {
             Ok(w) => W::File(w),
             Err(e) => {
